@@ -377,6 +377,113 @@ def translate(ctx):
     ctx.trusted_base.append("translator/pylite.py + translator/c20.py for the registration guard of _run_command_pipeline")
 
 
+# ------------------------------------------------------------------ a purge on an alias thread interleaved with the main thread
+def _interleaved(item):
+    """an alias thread runs the real `jobs` command (it works on the MAIN table through use_main_jobs and purges finished
+    jobs); its purge is parked inside one job's poll(); meanwhile the main thread starts a job / runs fg / lets a not yet polled
+    job exit; then the purge goes on.  Returns the job dict keys, the MRU order and the expected live set."""
+    import io
+    import threading
+
+    n, gate_pos, dying, action, seed = item
+    common.setup_repo_imports()
+    import xonsh.procs.jobs as xj
+    from xonsh.built_ins import XSH
+
+    class Proc:
+        def __init__(self):
+            self.pid, self.returncode = None, None
+
+        def poll(self):
+            return self.returncode
+
+    class Gate(Proc):
+        def __init__(self):
+            super().__init__()
+            self.worker, self.parked, self.release, self.used = None, threading.Event(), threading.Event(), False
+
+        def poll(self):
+            if threading.current_thread() is self.worker and not self.used:
+                self.used = True
+                self.parked.set()
+                self.release.wait(20)
+            return self.returncode
+
+    class Pipeline:
+        spec = type("Spec", (), {"captured": "stdout"})()
+
+        def resume(self, job, tee_output=True):
+            pass
+
+    XSH.env = {"XONSH_INTERACTIVE": False}
+    XSH.all_jobs = {}
+    xj._tasks_main.clear()
+    xj._jobs_thread_local.jobs = XSH.all_jobs
+    xj._jobs_thread_local.tasks = xj._tasks_main
+    procs = []
+
+    def start(proc=None, bg=True):
+        proc = proc or Proc()
+        xj.add_job({"cmds": [["j"]], "pids": [None], "obj": proc, "bg": bg, "pipeline": Pipeline(), "pgrp": None})
+        procs.append(proc)
+        return proc
+
+    gate = Gate()
+    for i in range(n):
+        start(gate if i == gate_pos else None, bg=(i % 2 == 0))
+    live = set(range(1, n + 1))
+    out = io.StringIO()
+    t = threading.Thread(target=lambda: xj.jobs([], stdout=out), name="alias-thread")
+    gate.worker = t
+    t.start()
+    if not gate.parked.wait(20):
+        return {"error": "the purge never reached poll()"}
+    try:
+        if action == "start":
+            start()
+            live.add(max(live) + 1 if live else 1)
+        elif action == "fg":
+            tgt = next(iter(sorted(live - {gate_pos + 1})), None)
+            if tgt is not None:
+                xj.fg([str(tgt)])
+        for d in dying:
+            if d != gate_pos and d < n:
+                procs[d].returncode = 0  # exits while the purge is parked
+    finally:
+        gate.release.set()
+        t.join(20)
+    # a job that exited is gone after one more purge on the main thread at the latest
+    xj.jobs([], stdout=io.StringIO())
+    for d in dying:
+        if d != gate_pos and d < n:
+            live.discard(d + 1)
+    return {"jobs": sorted(xj.get_jobs()), "tasks": list(xj.get_tasks()), "live": sorted(live)}
+
+
+def stream_interleaved(ctx, n, name="purge-on-an-alias-thread-interleaved"):
+    ctx.stream_rule(
+        name,
+        "directed schedules on the real tables (property oracle, no model — the Lean model's operations are atomic): an alias "
+        "thread runs the real `jobs` command on the main table (use_main_jobs) and is parked inside one job's poll(); meanwhile the "
+        "main thread starts a job or runs `fg` and not-yet-polled jobs exit; afterwards the job dict is exactly the live jobs and the "
+        "MRU order is a permutation of exactly those; non-trivial = every schedule",
+    )
+    items = []
+    for _ in range(n):
+        r = ctx.rng
+        k = r.randint(2, 5)
+        items.append([k, r.randrange(k), r.sample(range(k), r.randint(0, 2)), r.choice(["start", "start", "fg", "none"]), r.randrange(1 << 30)])
+    results = common.map_in_child(_interleaved, items, per_item_timeout=60, label="c20-interleaved")
+    for it, res in zip(items, results):
+        if res == common.HANG or (isinstance(res, dict) and ("__exc__" in res or "error" in res)):
+            raise common.InfraError(f"C20 interleaved worker failed: {res}")
+        ctx.case(name, repr(it), True, {"jobs": it[0], "parked_in": it[1], "exiting": it[2], "meanwhile": it[3]})
+        ctx.count("interleaved/" + it[3])
+        if res["jobs"] != res["live"] or sorted(res["tasks"]) != res["live"]:
+            ctx.spec_failure({"stream": name, "schedule": {"jobs": it[0], "parked_in": it[1], "exiting": it[2], "meanwhile": it[3]}}, res,
+                             "after an interleaved purge the job dict / the MRU order is not exactly the live jobs", None)
+
+
 def run(ctx):
     ctx.assumptions += [
         "each job-control operation is atomic (no lock in the code; intra-op interleavings are not modelled)",
@@ -388,6 +495,7 @@ def run(ctx):
     )
     stream_histories(ctx, ctx.n(250, 4000), ctx.n(30, 40))
     stream_registration(ctx, ctx.n(40, 400))
+    stream_interleaved(ctx, ctx.n(120, 1500))
 
 
 def search(ctx, reason):
